@@ -60,6 +60,7 @@ InvAdd == /\ wcall = <<"none">>
           /\ UNCHANGED <<table, lastId, ever, removalStarted, removedDone, rcall, ctx, live, chanSeq>>
 
 RetAddOk(id) == /\ wcall = <<"add">>
+                /\ ("C41" \in Check) => id \notin removedDone   \* C41: removed channels never reappear
                 /\ ("C42" \in Check) =>
                       /\ ~Full                             \* C42: not on a full table
                       /\ (lastId = NoId \/ id > lastId)    \* C42: strictly increasing
